@@ -1,1 +1,423 @@
-//! c04 — harnesses not written yet.
+//! C04 — the population stack is a faithful LIFO stack of populations.
+//! Code: mahf::state::common::Populations::{new,push,pop,try_pop,current,get_current,current_mut,get_current_mut,peek,try_peek,rotate,len,is_empty}
+//! Code: mahf::components::utils::populations::{RotatePopulations,ClearPopulation,DuplicatePopulation,InterleavePopulations}::execute
+//! Out: stack height > 4, populations with more than 2 individuals (the code is uniform in both: Vec<Vec<_>> operations)
+//! Assume: pre-state = stack of concrete height h with level sizes [1,2,0,2][..h] (bottom to top) and symbolic tags; one real operation from it (inductive step)
+use mahf::components::utils::populations::{ClearPopulation, DuplicatePopulation, InterleavePopulations, RotatePopulations};
+use mahf::components::Component;
+use mahf::state::common::Populations;
+use mahf::{Individual, State};
+
+use crate::problems::TagP;
+use crate::sym;
+
+const SIZES: [usize; 4] = [1, 2, 0, 2];
+
+#[derive(Clone, Copy)]
+struct Model {
+    h: usize,
+    size: [usize; 6],
+    tag: [[u8; 4]; 6],
+}
+
+fn ind(t: u8) -> Individual<TagP> {
+    Individual::new_unevaluated(t)
+}
+
+/// Stack of height `h` (bottom..top) with symbolic tags, and its model.
+fn build(h: usize) -> (Populations<TagP>, Model) {
+    build_sizes(h, SIZES)
+}
+fn build_sizes(h: usize, sizes: [usize; 4]) -> (Populations<TagP>, Model) {
+    let mut m = Model { h, size: [0; 6], tag: [[0; 4]; 6] };
+    let mut p = Populations::<TagP>::new();
+    let mut i = 0;
+    while i < h {
+        let n = sizes[i];
+        let mut v = Vec::with_capacity(3);
+        let mut j = 0;
+        while j < n {
+            let t = sym::u8();
+            m.tag[i][j] = t;
+            v.push(ind(t));
+            j += 1;
+        }
+        m.size[i] = n;
+        p.push(v);
+        i += 1;
+    }
+    (p, m)
+}
+
+fn same_pop(got: &[Individual<TagP>], m: &Model, level: usize) -> bool {
+    if got.len() != m.size[level] {
+        return false;
+    }
+    let mut j = 0;
+    while j < got.len() {
+        if *got[j].solution() != m.tag[level][j] || got[j].is_evaluated() {
+            return false;
+        }
+        j += 1;
+    }
+    true
+}
+
+/// Every read of the stack agrees with the model (non-panicking accessors only).
+fn check_all(p: &Populations<TagP>, m: &Model) {
+    assert!(p.len() == m.h, "len equals model height");
+    assert!(p.is_empty() == (m.h == 0), "is_empty agrees");
+    let mut d = 0;
+    while d < m.h {
+        match p.try_peek(d) {
+            Some(got) => assert!(same_pop(got, m, m.h - 1 - d), "try_peek(depth) returns the population a plain stack holds at that depth"),
+            None => assert!(false, "try_peek(depth < height) is Some"),
+        }
+        d += 1;
+    }
+    assert!(p.try_peek(m.h).is_none(), "try_peek(height) is None");
+    match p.get_current() {
+        Some(got) => assert!(m.h > 0 && same_pop(got, m, m.h - 1), "get_current is the top population"),
+        None => assert!(m.h == 0, "get_current is None only on an empty stack"),
+    }
+}
+
+fn reads(h: usize) {
+    let (p, m) = build(h);
+    check_all(&p, &m);
+    let d = sym::usize();
+    let r = p.try_peek(d); // must not panic for ANY depth
+    assert!(r.is_some() == (d < h), "try_peek is Some exactly for depth < height");
+    if h > 0 {
+        assert!(same_pop(p.current(), &m, h - 1), "current() is the top population");
+        let d2 = sym::usize();
+        sym::assume(d2 < h);
+        assert!(same_pop(p.peek(d2), &m, h - 1 - d2), "peek(depth) for depth < height");
+    }
+    vcover!(d > h, "deep probe");
+    std::mem::forget(p);
+}
+
+
+/// @h tier=quick bound="height 0, any depth argument" unwind=3
+#[cfg_attr(kani, kani::proof)]
+#[cfg_attr(kani, kani::unwind(3))]
+pub fn h_c04_reads_h0() {
+    reads(0)
+}
+/// @h tier=quick bound="height 1, symbolic tags, any depth argument" unwind=4
+#[cfg_attr(kani, kani::proof)]
+#[cfg_attr(kani, kani::unwind(4))]
+pub fn h_c04_reads_h1() {
+    reads(1)
+}
+/// @h tier=quick bound="height 3, symbolic tags, any depth argument" unwind=6
+#[cfg_attr(kani, kani::proof)]
+#[cfg_attr(kani, kani::unwind(6))]
+pub fn h_c04_reads_h3() {
+    reads(3)
+}
+/// @h tier=thorough bound="height 4, symbolic tags, any depth argument" unwind=7
+#[cfg_attr(kani, kani::proof)]
+#[cfg_attr(kani, kani::unwind(7))]
+pub fn h_c04_reads_h4() {
+    reads(4)
+}
+/// @h tier=thorough bound="height 2, symbolic tags, any depth argument" unwind=5
+#[cfg_attr(kani, kani::proof)]
+#[cfg_attr(kani, kani::unwind(5))]
+pub fn h_c04_reads_h2() {
+    reads(2)
+}
+
+fn push_pop(h: usize) {
+    let (mut p, mut m) = build(h);
+    // push a 2-individual population with symbolic tags
+    let (a, b) = (sym::u8(), sym::u8());
+    p.push(vec![ind(a), ind(b)]);
+    m.size[h] = 2;
+    m.tag[h][0] = a;
+    m.tag[h][1] = b;
+    m.h = h + 1;
+    check_all(&p, &m);
+    // try_pop returns exactly it and re-exposes everything below unchanged
+    match p.try_pop() {
+        Some(top) => assert!(same_pop(&top, &m, h), "try_pop returns the pushed population"),
+        None => assert!(false, "try_pop on a non-empty stack is Some"),
+    }
+    m.h = h;
+    check_all(&p, &m);
+    // pop the original top (or observe None)
+    let r = p.try_pop();
+    if h == 0 {
+        assert!(r.is_none(), "try_pop on an empty stack is None");
+        assert!(p.try_pop().is_none() && p.get_current().is_none() && p.get_current_mut().is_none(), "empty stays empty, accessors None");
+    } else {
+        match r {
+            Some(top) => assert!(same_pop(&top, &m, h - 1), "second try_pop returns the next population"),
+            None => assert!(false, "try_pop is Some"),
+        }
+        m.h = h - 1;
+        check_all(&p, &m);
+    }
+    vcover!(a != b, "reached");
+    std::mem::forget(p);
+}
+/// @h tier=quick bound="height 0: push, try_pop, try_pop" unwind=4
+#[cfg_attr(kani, kani::proof)]
+#[cfg_attr(kani, kani::unwind(4))]
+pub fn h_c04_pushpop_h0() {
+    push_pop(0)
+}
+/// @h tier=quick bound="height 2: push, try_pop, try_pop" unwind=6
+#[cfg_attr(kani, kani::proof)]
+#[cfg_attr(kani, kani::unwind(6))]
+pub fn h_c04_pushpop_h2() {
+    push_pop(2)
+}
+/// @h tier=thorough bound="height 1: push, try_pop, try_pop" unwind=5
+#[cfg_attr(kani, kani::proof)]
+#[cfg_attr(kani, kani::unwind(5))]
+pub fn h_c04_pushpop_h1() {
+    push_pop(1)
+}
+/// @h tier=thorough bound="height 3: push, try_pop, try_pop" unwind=7
+#[cfg_attr(kani, kani::proof)]
+#[cfg_attr(kani, kani::unwind(7))]
+pub fn h_c04_pushpop_h3() {
+    push_pop(3)
+}
+
+/// In-place edits through current_mut / get_current_mut (overwrite an individual, edit a
+/// solution, remove an individual), then pop(): the edits land in the top population only.
+/// (Growing the inner Vec through the reference is avoided: the re-allocation path with a
+/// symbolic capacity costs 50+ s of SAT per push and is std code, not mahf code.)
+fn edit(h: usize) {
+    let (mut p, mut m) = build(h);
+    let top = h - 1;
+    let n = m.size[top];
+    let (t, t2) = (sym::u8(), sym::u8());
+    p.current_mut()[0] = ind(t);
+    m.tag[top][0] = t;
+    check_all(&p, &m);
+    match p.get_current_mut() {
+        Some(cur) => {
+            *cur[n - 1].solution_mut() = t2;
+        }
+        None => assert!(false, "get_current_mut is Some on a non-empty stack"),
+    }
+    m.tag[top][n - 1] = t2;
+    check_all(&p, &m);
+    let removed = p.current_mut().pop();
+    assert!(removed.is_some(), "inner pop returns the last individual");
+    m.size[top] = n - 1;
+    check_all(&p, &m);
+    let got = p.pop();
+    assert!(same_pop(&got, &m, top), "pop returns the edited top");
+    m.h = h - 1;
+    check_all(&p, &m);
+    vcover!(t != t2, "reached");
+    std::mem::forget(p);
+    std::mem::forget(got);
+}
+/// @h tier=quick bound="height 1: edit top in place, pop" unwind=5
+#[cfg_attr(kani, kani::proof)]
+#[cfg_attr(kani, kani::unwind(5))]
+pub fn h_c04_edit_h1() {
+    edit(1)
+}
+/// @h tier=quick bound="height 2: edit top in place, pop" unwind=6
+#[cfg_attr(kani, kani::proof)]
+#[cfg_attr(kani, kani::unwind(6))]
+pub fn h_c04_edit_h2() {
+    edit(2)
+}
+
+/// rotate(n): exactly the top n populations are shifted by one (the top one goes to the bottom
+/// of the rotated window, like `rotate_right(1)` on the window) and n applications restore.
+fn rotate(h: usize, n: usize) {
+    let (mut p, m) = build(h);
+    p.rotate(n);
+    let mut e = m;
+    if n > 0 {
+        // window = levels h-n .. h-1 ; new[h-n] = old[h-1], new[k] = old[k-1] for k in h-n+1..h
+        let mut k = h - n;
+        while k < h {
+            let src = if k == h - n { h - 1 } else { k - 1 };
+            e.size[k] = m.size[src];
+            e.tag[k] = m.tag[src];
+            k += 1;
+        }
+    }
+    check_all(&p, &e);
+    let mut i = 1;
+    while i < n {
+        p.rotate(n);
+        i += 1;
+    }
+    check_all(&p, &m);
+    std::mem::forget(p);
+}
+macro_rules! rot {
+    ($name:ident, $h:expr, $n:expr, $uw:expr) => {
+        #[cfg_attr(kani, kani::proof)]
+        #[cfg_attr(kani, kani::unwind($uw))]
+        pub fn $name() {
+            rotate($h, $n);
+            vcover!(true, "reached");
+        }
+    };
+}
+// @h tier=quick bound="height 1, rotate(1)" unwind=4
+rot!(h_c04_rotate_h1_n1, 1, 1, 4);
+// @h tier=quick bound="height 2, rotate(2) twice" unwind=5
+rot!(h_c04_rotate_h2_n2, 2, 2, 5);
+// @h tier=quick bound="height 3, rotate(2) twice" unwind=6
+rot!(h_c04_rotate_h3_n2, 3, 2, 6);
+// @h tier=quick bound="height 3, rotate(3) three times" unwind=6
+rot!(h_c04_rotate_h3_n3, 3, 3, 6);
+// @h tier=quick bound="height 3, rotate(1)" unwind=6
+rot!(h_c04_rotate_h3_n1, 3, 1, 6);
+// @h tier=quick bound="height 2, rotate(0)" unwind=5
+rot!(h_c04_rotate_h2_n0, 2, 0, 5);
+// @h tier=thorough bound="height 4, rotate(4) four times" unwind=7
+rot!(h_c04_rotate_h4_n4, 4, 4, 7);
+// @h tier=thorough bound="height 4, rotate(3) three times" unwind=7
+rot!(h_c04_rotate_h4_n3, 4, 3, 7);
+// @h tier=thorough bound="height 4, rotate(2) twice" unwind=7
+rot!(h_c04_rotate_h4_n2, 4, 2, 7);
+// @h tier=thorough bound="height 2, rotate(1)" unwind=5
+rot!(h_c04_rotate_h2_n1, 2, 1, 5);
+
+// ---- components through a prepared state ---------------------------------------------------------
+
+fn state_with(p: Populations<TagP>) -> State<'static, TagP> {
+    let mut s: State<TagP> = State::new();
+    s.insert(p);
+    s
+}
+
+/// RotatePopulations guards its height: Err (no panic) when the stack is too shallow, otherwise
+/// the same effect as rotate(n).
+fn rotate_component(h: usize, n: usize) {
+    let (p, m) = build(h);
+    let mut s = state_with(p);
+    let c = RotatePopulations::from_params(n);
+    let r = Component::<TagP>::execute(&c, &TagP, &mut s);
+    if n > h {
+        assert!(r.is_err(), "RotatePopulations reports a too-shallow stack as Err");
+        check_all(&s.populations(), &m);
+    } else {
+        assert!(r.is_ok(), "RotatePopulations succeeds when the stack is high enough");
+        let mut e = m;
+        if n > 0 {
+            let mut k = h - n;
+            while k < h {
+                let src = if k == h - n { h - 1 } else { k - 1 };
+                e.size[k] = m.size[src];
+                e.tag[k] = m.tag[src];
+                k += 1;
+            }
+        }
+        check_all(&s.populations(), &e);
+    }
+    std::mem::forget(s);
+}
+/// @h tier=quick bound="height 2, component n=2 (n == height)" unwind=5 cost=3
+#[cfg_attr(kani, kani::proof)]
+#[cfg_attr(kani, kani::unwind(5))]
+pub fn h_c04_rotatecomp_h2_n2() {
+    rotate_component(2, 2);
+    vcover!(true, "reached");
+}
+/// @h tier=quick bound="height 2, component n=3 (too shallow)" unwind=5 cost=3
+#[cfg_attr(kani, kani::proof)]
+#[cfg_attr(kani, kani::unwind(5))]
+pub fn h_c04_rotatecomp_h2_n3() {
+    rotate_component(2, 3);
+    vcover!(true, "reached");
+}
+/// @h tier=thorough bound="height 3, component n=2" unwind=6 cost=3
+#[cfg_attr(kani, kani::proof)]
+#[cfg_attr(kani, kani::unwind(6))]
+pub fn h_c04_rotatecomp_h3_n2() {
+    rotate_component(3, 2);
+    vcover!(true, "reached");
+}
+
+/// ClearPopulation empties the top population only; DuplicatePopulation doubles the top
+/// population (each individual followed by its copy); Interleave merges the two top ones.
+/// @h tier=quick bound="height 2: ClearPopulation" unwind=5 cost=3
+#[cfg_attr(kani, kani::proof)]
+#[cfg_attr(kani, kani::unwind(5))]
+pub fn h_c04_clear_h2() {
+    let (p, mut m) = build(2);
+    let mut s = state_with(p);
+    let r = Component::<TagP>::execute(&ClearPopulation::from_params(), &TagP, &mut s);
+    assert!(r.is_ok(), "ClearPopulation succeeds");
+    m.size[1] = 0;
+    check_all(&s.populations(), &m);
+    vcover!(true, "reached");
+    std::mem::forget(s);
+}
+fn duplicate(sizes: [usize; 4]) {
+    let (p, mut m) = build_sizes(2, sizes);
+    let mut s = state_with(p);
+    let r = Component::<TagP>::execute(&DuplicatePopulation::from_params(), &TagP, &mut s);
+    assert!(r.is_ok(), "DuplicatePopulation succeeds");
+    let (a, b) = (m.tag[1][0], m.tag[1][1]);
+    if sizes[1] == 2 {
+        m.size[1] = 4;
+        m.tag[1] = [a, a, b, b];
+    } else {
+        m.size[1] = 2;
+        m.tag[1] = [a, a, 0, 0];
+    }
+    check_all(&s.populations(), &m);
+    std::mem::forget(s);
+}
+/// @h tier=thorough bound="height 2: DuplicatePopulation on a 1-individual top" unwind=5 cost=8 mem=24 timeout=1200
+#[cfg_attr(kani, kani::proof)]
+#[cfg_attr(kani, kani::unwind(5))]
+pub fn h_c04_duplicate_top1() {
+    duplicate([1, 1, 0, 0]);
+    vcover!(true, "reached");
+}
+/// @h tier=thorough bound="height 2: DuplicatePopulation on a 2-individual top" unwind=6 cost=9 mem=24 timeout=1500
+#[cfg_attr(kani, kani::proof)]
+#[cfg_attr(kani, kani::unwind(6))]
+pub fn h_c04_duplicate_top2() {
+    duplicate([1, 2, 0, 0]);
+    vcover!(true, "reached");
+}
+fn interleave_pops(sizes: [usize; 4]) {
+    let (p, m) = build_sizes(2, sizes);
+    let mut s = state_with(p);
+    let r = Component::<crate::problems::TagP>::execute(&InterleavePopulations::from_params(), &TagP, &mut s);
+    assert!(r.is_ok(), "InterleavePopulations succeeds");
+    let mut e = m;
+    e.h = 1;
+    if sizes[1] == 2 {
+        e.size[0] = 3;
+        e.tag[0] = [m.tag[1][0], m.tag[0][0], m.tag[1][1], 0];
+    } else {
+        e.size[0] = 2;
+        e.tag[0] = [m.tag[1][0], m.tag[0][0], 0, 0];
+    }
+    check_all(&s.populations(), &e);
+    std::mem::forget(s);
+}
+/// @h tier=thorough bound="height 2: InterleavePopulations (1 and 1 individuals)" unwind=5 cost=6 mem=12 timeout=900
+#[cfg_attr(kani, kani::proof)]
+#[cfg_attr(kani, kani::unwind(5))]
+pub fn h_c04_interleave_1_1() {
+    interleave_pops([1, 1, 0, 0]);
+    vcover!(true, "reached");
+}
+/// @h tier=thorough bound="height 2: InterleavePopulations (top 2, below 1)" unwind=6 cost=8 mem=14 timeout=900
+#[cfg_attr(kani, kani::proof)]
+#[cfg_attr(kani, kani::unwind(6))]
+pub fn h_c04_interleave_2_1() {
+    interleave_pops([1, 2, 0, 0]);
+    vcover!(true, "reached");
+}
